@@ -28,8 +28,9 @@ func (w *World) SetValueInBuffer(b *Buffer, idx int, t ElemType, v Value, little
 		r = BigIntToRaw(t, v.(*big.Int))
 	} else {
 		f := v.(float64)
-		if !t.IsFloat() && !math.IsInf(f, 0) && math.Abs(f) >= 9223372036854775808 {
-			w.HugeIntConversions++ // finite |x| >= 2^63 converted to an integer element type
+		if a := math.Abs(f); !t.IsFloat() && a >= 9223372036854775808 && a < 38685626227668133590597632 {
+			// 2^63 <= |x| < 2^85 converted to an integer element type (from 2^85 on every double is a multiple of 2^32: the result is 0)
+			w.HugeIntConversions++
 		}
 		r = NumberToRaw(t, f)
 	}
